@@ -48,12 +48,12 @@ func hasProp(ps []string, p string) bool {
 }
 
 type checkRun struct {
-	prop     string
-	tier     string
-	results  []*FuncResult
-	obls     []*Obligation
-	faults   []string
-	assumes  []string
+	prop    string
+	tier    string
+	results []*FuncResult
+	obls    []*Obligation
+	faults  []string
+	assumes []string
 }
 
 func runCheck(repo, verifDir, prop, tier, evidence string, timeout int, verbose bool) int {
@@ -330,11 +330,11 @@ func runCheck(repo, verifDir, prop, tier, evidence string, timeout int, verbose 
 	}
 	cov := map[string]interface{}{
 		"obligations": total, "discharged": discharged,
-		"checker_cmd": fmt.Sprintf("/verif/bin/govc check -repo %s -tier %s %s", repo, tier, prop),
+		"checker_cmd":  fmt.Sprintf("/verif/bin/govc check -repo %s -tier %s %s", repo, tier, prop),
 		"trusted_base": trusted, "functions_under_contract": funcs, "by_backend": byBackend,
 		"solver_time_s": round2(solverTime), "slowest": slowest, "bounded": bounded, "outside_subset": outside,
 		"known_findings": knownHit, "cover_undecided": coverUndecided, "samples": samples, "notes": notes,
-		"phase_s": map[string]float64{"load": round2(tLoad), "vcgen": round2(tGen), "solve": round2(tSolve)},
+		"phase_s":     map[string]float64{"load": round2(tLoad), "vcgen": round2(tGen), "solve": round2(tSolve)},
 		"tool_faults": run.faults,
 	}
 	if explanation != "" {
